@@ -5,8 +5,12 @@ os.environ["VERIF_NO_INLINE"] = "1"
 V = os.path.join(os.path.dirname(os.path.abspath(__file__)), "..")
 sys.path.insert(0, os.path.join(V, "rules"))
 import mir, corerules
-F = mir.load("default")
+import common
 ADTS = ["Document", "IncrementalDocument", "Stream", "Xref", "XrefSection", "PageTreeIter", "EncryptionState", "PasswordAlgorithm", "Bookmark", "Reader", "CountingWrite", "ObjectStream", "ToUnicodeCMap", "Toc"]
-t = corerules.field_writer_table(F, ADTS)
+t = {}
+for cfg in ["default"] + list(common.THOROUGH_CONFIGS):
+    F = mir.load(cfg)
+    for k, v in corerules.field_writer_table(F, ADTS).items():
+        t[k] = sorted(set(t.get(k, [])) | set(v))
 json.dump(t, open(os.path.join(V, "tables", "field_writers.json"), "w"), indent=1, sort_keys=True)
 print(len(t), "fields;", sum(len(v) for v in t.values()), "writer entries")
